@@ -377,6 +377,18 @@ func generate(w *world, thorough bool) []*Case {
 		g.sigFamily(post, thorough)
 		g.sigFamily(cmpct, thorough)
 	}
+	// stateful request / response sequences around the node's own ping and getheaders
+	if thorough {
+		g.seqFamily(g.ctx["pinged"], 4)
+		g.seqFamily(g.ctx["gh"], 4)
+	} else {
+		g.seqFamily(g.ctx["pinged"], 4)
+		g.seqFamily(g.ctx["gh"], 3)
+	}
+	for _, t := range g.ts {
+		g.families(t, g.ctx["pinged"], "v", false)
+	}
+	g.families(g.t("pong"), g.ctx["pinged"], "tlcs", false)
 	// bursts against the bounded queues while the main thread is not reading them
 	g.burstFamily(ready, true)
 	if thorough {
@@ -509,6 +521,7 @@ type tally struct {
 	selfOK    int
 	dlOK      int
 	burstOK   int
+	pongOK    int
 	sigOK     map[string]int
 	usNet     int64
 	usNetMax  int64
@@ -687,6 +700,13 @@ func main() {
 				if strings.Contains(cs.Family, k+":valid") && !strings.Contains(cs.Family, ":wrong") && !strings.Contains(cs.Family, ":empty") {
 					t.sigOK[k]++
 				}
+			}
+		}
+		if cs.Kind == "net" && cs.Ctx == "pinged" && cs.Family == "seq/pong-match" {
+			if !strings.Contains(res.Outcome, "pings=1 pongok=1") {
+				selfFail.Store("the matching pong was not recognised by the node: " + res.Outcome)
+			} else {
+				t.pongOK++
 			}
 		}
 		if cs.Kind == "net" && cs.Tmpl == "burst-tx" {
@@ -913,6 +933,7 @@ func main() {
 		"timing_disturbed_reruns":  t.disturbed,
 		"context_dl_established":   t.dlOK,
 		"queue_bursts_filled":      t.burstOK,
+		"matching_pong_recognised": t.pongOK,
 		"signed_spends_accepted":   t.sigOK,
 		"oracle_selftests_passed":  t.selfOK,
 		"samples":                  samples.L,
